@@ -146,8 +146,10 @@ def write_evidence(mod, ctx, obligations, discharged, audit, checker_cmd, nviol,
         "wall_s": round(ctx.wall(), 2),
         "violations": nviol,
     }
-    os.makedirs(os.path.join(ROOT, "evidence"), exist_ok=True)
-    with open(os.path.join(ROOT, "evidence", "%s.json" % ctx.pid), "w") as f:
+    # evidence/ describes runs against /repo itself; a run pointed at another tree (VERIF_REPO: seeded changes, experiments) writes elsewhere
+    edir = "evidence" if os.environ.get("VERIF_REPO", "/repo").rstrip("/") == "/repo" else "evidence_other_tree"
+    os.makedirs(os.path.join(ROOT, edir), exist_ok=True)
+    with open(os.path.join(ROOT, edir, "%s.json" % ctx.pid), "w") as f:
         json.dump(ev, f, indent=1, default=np_default)
 
 
